@@ -305,6 +305,22 @@ RUNNER_MAIN = r'''
 extern "Rust" { %(externs)s }
 #[allow(unused_imports)]
 use %(crate)s as _;
+// native allocation monitor: largest single request since the last reset (read by harnesses whose property
+// bounds allocation; under Kani the same number comes from a stubbed std::alloc::alloc)
+#[no_mangle] pub static VK_NATIVE_MAX_ALLOC: std::sync::atomic::AtomicUsize = std::sync::atomic::AtomicUsize::new(0);
+struct VkCounting;
+unsafe impl std::alloc::GlobalAlloc for VkCounting {
+    unsafe fn alloc(&self, l: std::alloc::Layout) -> *mut u8 {
+        VK_NATIVE_MAX_ALLOC.fetch_max(l.size(), std::sync::atomic::Ordering::Relaxed);
+        std::alloc::System.alloc(l)
+    }
+    unsafe fn dealloc(&self, p: *mut u8, l: std::alloc::Layout) { std::alloc::System.dealloc(p, l) }
+    unsafe fn realloc(&self, p: *mut u8, l: std::alloc::Layout, n: usize) -> *mut u8 {
+        VK_NATIVE_MAX_ALLOC.fetch_max(n, std::sync::atomic::Ordering::Relaxed);
+        std::alloc::System.realloc(p, l, n)
+    }
+}
+#[global_allocator] static VK_ALLOC: VkCounting = VkCounting;
 fn main() {
     let a: Vec<String> = std::env::args().collect();
     let m = a[1].clone();
